@@ -92,48 +92,18 @@ example : andNot (capsBit ||| numBit) (capsBit ||| numBit) = 0 ∧ andNot capsBi
     are themselves; an upper-case letter is Shift + its lower-case; DEL is BackSpace. -/
 theorem decode_exact_print (u : Uni) (g : Str) (hg : g ≠ [])
     (h127 : u.isUpper (g.headD 0) = true → u.toLower (g.headD 0) ≠ 127) :
-    decodeKey u (.print g) = printExpected u g := by
-  have hraw : decodeRaw u (.print g) = printExpected u g := by
-    dsimp only [decodeRaw, printExpected]
-    generalize g.headD 0 = ch at h127 ⊢
-    by_cases hu : u.isUpper ch = true
-    · have := h127 hu
-      simp [hu, KeyBackspace, this, ModShift, shiftBit]
-    · by_cases hd : ch = 127
-      · subst hd; simp [hu, KeyBackspace]
-      · simp [hu, hd, KeyBackspace]
-  rw [decodeKey_eq, hraw]
-  apply shiftFix_id
-  dsimp only [printExpected]
-  generalize g.headD 0 = ch
-  by_cases hu : u.isUpper ch = true
-  · left; simp [hu, hg]
-  · by_cases hd : ch = 127
-    · right; subst hd; simp [hu, stripLocks, andNot, shiftBit]
-    · left; simp [hu, hd, hg]
+    decodeKey u (.print g) = printExpected u g :=
+  decodeKey_print u g hg h127
 
 /-- **decode_exact_c0.** Every C0 byte: BS/HT/CR/ESC are keys, the others are Ctrl chords. -/
 theorem decode_exact_c0 (u : Uni) (b : Int) (h0 : 0 ≤ b) (h1 : b < 32) :
-    decodeKey u (.c0 b) = c0Expected b := by
-  obtain ⟨n, rfl⟩ : ∃ n : Nat, b = n := ⟨b.toNat, by omega⟩
-  have hn : n < 32 := by omega
-  have := c0Raw_table ⟨n, hn⟩
-  rw [decodeKey_eq, decodeRaw_c0, shiftFix_id _ _ (Or.inr this.2)]
-  exact this.1
+    decodeKey u (.c0 b) = c0Expected b :=
+  decodeKey_c0 u b h0 h1
 
 /-- **decode_exact_esc.** ESC-prefixed character: Alt + that character (any final); upper-case
     letters are Alt + Shift + the lower-case letter. -/
-theorem decode_exact_esc (u : Uni) (final : Int) : decodeKey u (.esc final) = escExpected u final := by
-  rw [decodeKey_eq]
-  have hraw : decodeRaw u (.esc final) = escExpected u final := by
-    dsimp only [decodeRaw, escExpected]
-    split <;> rfl
-  rw [hraw]
-  apply shiftFix_id; right
-  unfold escExpected
-  split
-  · show stripLocks (altBit ||| shiftBit) ≠ shiftBit; decide
-  · show stripLocks altBit ≠ shiftBit; decide
+theorem decode_exact_esc (u : Uni) (final : Int) : decodeKey u (.esc final) = escExpected u final :=
+  decodeKey_esc u final
 
 /-- **decode_exact_ss3.** Every SS3 final of the xterm table denotes its key, unmodified. -/
 theorem decode_exact_ss3 (u : Uni) :
